@@ -170,21 +170,54 @@ Theorem C04_mixed_merge_k_step :
 Proof. exact mixed_k_step. Qed.
 Print Assumptions C04_mixed_merge_k_step.
 
-(* ---- what does NOT hold (findings / limits), with witnesses ---------------------- *)
+(* ---- JustAttributes on remaining bodies (former finding, now a law) ----------------
 
-(* FINDING. Native body "a = 1; blk {}", PartialContent with schema {blk}: the
-   block is returned, no diagnostics; every visible item of the remainder is an
-   attribute and Content {a} on the remainder is clean — yet JustAttributes on
-   the remainder reports 'Unexpected "blk" block' (structure.go:252 tests
-   len(b.Blocks), not the blocks that are still visible). *)
-Theorem C04_native_just_attrs_remain_refuted :
+   For the native syntax and merges of native bodies (with unique attribute
+   names across the merge): JustAttributes reports a diagnostic iff some
+   VISIBLE item is a block — a block type consumed by an earlier
+   PartialContent is never reported (hclsyntax fix 14e64b3). The JSON syntax
+   is excluded by design: its JustAttributes also refuses array-of-objects
+   bodies. *)
+Theorem C04_native_just_attrs_exact :
+  forall V (b : nbody V), nwf b -> NoDup (map aname (all_attrs (nitems b))) ->
+    (snd (njust_attrs b) = [] <-> forall it, In it (nitems b) -> iattr it <> None).
+Proof. exact (fun V => native_just_attrs_exact V). Qed.
+Print Assumptions C04_native_just_attrs_exact.
+
+(* ... and when it does report, it names the first visible block *)
+Theorem C04_native_just_attrs_diag :
+  forall V (b : nbody V),
+    snd (njust_attrs b) = match vis_blocks b with
+                          | [] => []
+                          | ex :: _ => [(UnexpectedBlock, btype ex)]
+                          end.
+Proof. exact (fun V => native_just_attrs_diag V). Qed.
+Print Assumptions C04_native_just_attrs_diag.
+
+Theorem C04_merged_preserves_just_attrs_exact :
+  forall V C (I : BodyImpl V C), Lawful I -> just_attrs_exact I -> just_attrs_exact (merged_impl I).
+Proof. exact merged_just_attrs_exact. Qed.
+Print Assumptions C04_merged_preserves_just_attrs_exact.
+
+Theorem C04_merged_native_just_attrs_exact :
+  forall V (mb : list (nbody V)), Forall nwf mb ->
+    NoDup (map aname (all_attrs (flat_map nitems mb))) ->
+    (snd (mjust_attrs V (nbody V) (native_impl V) mb) = [] <->
+     forall it, In it (flat_map nitems mb) -> iattr it <> None).
+Proof. exact (fun V => merged_native_just_attrs_exact V). Qed.
+Print Assumptions C04_merged_native_just_attrs_exact.
+
+(* the minimal input of the former finding: "a = 1; blk {}", PartialContent
+   {blk}; the remainder's Content {a} and JustAttributes are both clean *)
+Theorem C04_native_just_attrs_remain_clean :
   let '(c, r, d) := npartial ja_witness_schema ja_witness_body in
   nwf ja_witness_body /\ d = [] /\ List.length (cblocks c) = 1%nat /\
-  (forall it, In it (nitems r) -> iattr it <> None) /\
   snd (ncontent {| sattrs := [("a"%string, false)]; sblocks := [] |} r) = [] /\
-  snd (njust_attrs r) = [(UnexpectedBlock, "blk"%string)].
-Proof. exact native_just_attrs_remain_refuted. Qed.
-Print Assumptions C04_native_just_attrs_remain_refuted.
+  njust_attrs r = ([{| aname := "a"%string; aval := tt |}], []).
+Proof. exact native_just_attrs_remain_clean. Qed.
+Print Assumptions C04_native_just_attrs_remain_clean.
+
+(* ---- what does NOT hold (a limit), with witness ------------------------------------- *)
 
 (* LIMIT (by design of the JSON syntax: one namespace). Disjointness per
    namespace is not enough for the two-step law: {"x": {"l": {}}} with part 1
